@@ -22,7 +22,7 @@ MONITORS = ["resumes_compared", "events_compared", "epoch_logs_compared"]
 
 
 def gen_cases(run):
-    n = run.n(14000, 1200000)
+    n = run.n(28000, 1200000)
     rng = run.rng
     for _ in range(n):
         g = H.gen_geometry(rng, big=False)
